@@ -417,7 +417,7 @@ def index_key_shapes_detail(m, f):
 KEY_SUFFIX_TOLERATED = {}
 
 
-def _deps(f, local, limit=600):
+def _deps(f, local, limit=600, stop=()):
     """backward dependence closure of a local over all of its definitions: data (operands of rvalues, arguments of calls) and,
     for multi-definition locals such as a lowered `a && b && c`, control (operands of the switches lying between the nearest
     common dominator of the definitions and those definitions)"""
@@ -440,6 +440,8 @@ def _deps(f, local, limit=600):
         if l in seen:
             continue
         seen.add(l)
+        if l in stop:
+            continue
         ds_ = f.defs().get(l, [])
         if len(ds_) >= 2:
             dbs = [d[1] for d in ds_]
